@@ -90,6 +90,7 @@ BASE = [
     ["slice", [-2, -1]],
     ["slice", [-2, 3]],
     ["slice", [-2, -3]],
+    ["esplit", 1000],
     ["split", 1, True, [[["call", "id"]]]],
     ["split", 2, True, [[["filter", "even"]], [["call", "inc"]]]],
     ["split", 3, False, [[["slice", [None, -1]]], [["call", "id"]]]],
@@ -108,6 +109,8 @@ EXTRA = [
     ["slice", [-1, -2]],
     ["split", 3, True, [[["call", "inc"], ["slice", [1]]], [["var"]]]],
     ["split", 2, False, [[["slice", [1, None]]]]],
+    ["esplit", 2],
+    ["esplit", None],
 ]
 
 
